@@ -94,7 +94,7 @@ func gf2p8affine(matrix []byte, x, imm byte) byte {
 }
 
 func TestVX_C18_Asm(t *testing.T) {
-	r := vx.Begin("C18", "asm-data", "DATA blocks and #define constants parsed from the current tree's assembly files: FK, CK (amd64, arm64) = standard values; arm64 SBox = algebraic S-box; Pre/PostAffineMatrix + Pre/PostAffineConstant: GF2P8AFFINEQB / GF2P8AFFINEINVQB emulated per the Intel SDM over all 256 inputs, composition must equal the algebraic S-box; Shuffle* byte permutations, Counter_Add1/2/3 lane increments, AND_MASK/LOWER_MASK nibble bit-reversal, lane-merge index vectors (on the positions their masks use), GCM_POLY = 0x87; arm64 GHASH reduction immediate. Finite space enumerated completely")
+	r := vx.Begin("C18", "asm-data", "DATA blocks and #define constants parsed from the current tree's assembly files: FK, CK (amd64, arm64) = standard values; arm64 SBox = algebraic S-box; Pre/PostAffineMatrix + Pre/PostAffineConstant: GF2P8AFFINEQB / GF2P8AFFINEINVQB emulated per the Intel SDM over all 256 inputs, composition must equal the algebraic S-box; Shuffle* byte permutations, Counter_Add1/2/3 lane increments, AND_MASK/LOWER_MASK nibble bit-reversal, lane-merge index vectors (on the positions their masks use), GCM_POLY = 0x87 (the arm64 reduction constant is an instruction immediate: its spelling is recognised for coverage reporting only). Finite space enumerated completely")
 	defer r.End()
 	root := os.Getenv("VX_REPO_COPY")
 	if root == "" {
@@ -250,9 +250,13 @@ func TestVX_C18_Asm(t *testing.T) {
 	// arm64 GHASH reduction constant appears as an immediate
 	if raw, err := os.ReadFile(filepath.Join(dir, "gcm_arm64.s")); err == nil {
 		r.Eval(1)
-		if !regexp.MustCompile(`MOVD\s+\$0x87\s*,`).Match(raw) {
-			r.Violation("const:asm:gcm_arm64.s:poly", "the GHASH reduction polynomial immediate $0x87 is not loaded in gcm_arm64.s", "poly")
+		// Only the spelling is recognised (MOVD / MOVW / MOV of $0x87 or $135 into a general register that is then
+		// duplicated into the lanes): arm64 code cannot be executed here, so a constant that is built in another way is
+		// not judged - reported as not covered, never as a violation.
+		if regexp.MustCompile(`MOV[DW]?\s+\$(0x0*87|135)\s*,`).Match(raw) {
+			r.Shape("gcm_arm64.s:poly")
+		} else {
+			r.NotExhaustive("gcm_arm64.s does not load the GHASH reduction constant by the recognised idiom (MOVD $0x87, Rn): constants built from other instruction immediates on arm64 are outside this part's reach")
 		}
-		r.Shape("gcm_arm64.s:poly")
 	}
 }
